@@ -213,6 +213,14 @@ def _match_table(ck, prog, rule, fname, site, spec, spec_text, role_fix=None):
         got = returns_under_pins(g, pins)
         want = spec(asg)
         if want is None:
+            helpers = [n for n in f.nodes if n['k'] == 'call' and n.get('ck') in prog.funcs and prog.funcs[n['ck']].cls == f.cls and prog.funcs[n['ck']].blocks and
+                       prog.funcs[n['ck']].name != f.name]
+            if helpers:
+                # part of the predicate lives in a helper of the class that is applied to several fields in turn: the atoms of
+                # one inlined copy cannot be pinned apart from the other's - not decided rather than accused
+                ck.inconclusive(rule, f, site, helpers[0], '%s evaluates part of its formula in the shared helper %s (applied to several fields): the decision table is not built across it' %
+                                (fname.rsplit('::', 1)[-1], prog.funcs[helpers[0]['ck']].name))
+                return
             wrong = (asg, 'atoms %s do not cover the documented fields' % keys)
             break
         if got != {T if want else F}:
